@@ -237,11 +237,13 @@ def _mismatches(nas, ref, frozen, names, did_bwd, sampled_out):
     if other:
         out['requires-grad-differs'] = f'requires_grad differs from the reference for {other[:4]} (expected the opposite)'
     if did_bwd:
+        # the kind of frozen mask matters: on the pinned tree only the RF / dilation masks of strided convolutions can receive a
+        # gradient (finding D10); a frozen FEATURES mask reads a constant buffer and must never get one
         for n in sorted(frozen):
             g = names[n].grad
             if g is not None and float(g.abs().sum()) != 0.0:
-                out['frozen-mask-gets-gradient'] = f'{n} received gradient {g.flatten()[:4].tolist()} from loss + cost'
-                break
+                kind = 'frozen-features-mask-gets-gradient' if n.endswith('.alpha') else 'frozen-rf-dilation-mask-gets-gradient'
+                out.setdefault(kind, f'{n} received gradient {g.flatten()[:4].tolist()} from loss + cost')
     for n, m, kind in _samplers({'method': case_method}, nas):
         prev, got = _observe_sampler(m, kind, 1234)
         want = _ref_sample(m.alpha.detach(), ref.opts, prev, 1234)
